@@ -1,3 +1,335 @@
-import Sbdf.Slice
+/-
+  C10 — Metadata collections behave as an insertion-ordered map with a one-way freeze.
+-/
+import Sbdf.TableMetadata
+import Sbdf.Lemmas.P
+import Sbdf.Props.C11
 namespace Sbdf.C10
+open Md
+
+/-- the abstract view: an insertion-ordered association list keyed by the C-string name -/
+def keys (m : Md) : List Bytes := m.entries.map (fun e => cstr e.name)
+
+/-- invariant of metadata built through the API -/
+structure Inv (m : Md) : Prop where
+  uniq : m.entries.Pairwise (fun a b => nameEq a.name b.name = false)
+  single : ∀ e ∈ m.entries, ∃ v, e.value = some v ∧ v.count = 1 ∧
+    (∀ d, e.dflt = some d → d.tid = v.tid ∧ d.count = 1)
+
+theorem inv_empty : Inv Md.empty := ⟨by simp [Md.empty], by simp [Md.empty]⟩
+
+theorem find_none_iff (m : Md) (n : Bytes) : m.find n = none ↔ ∀ e ∈ m.entries, nameEq e.name n = false := by
+  simp [Md.find, List.find?_eq_none]
+
+/-! ### add -/
+
+/-- the checks of `sbdf_md_add`, in the order of the C code -/
+theorem add_status (n : Bytes) (v : Obj) (d : Option Obj) (m : Md) :
+    (m.modifiable = false → add n v d m = .error .mdReadonly) ∧
+    (m.modifiable = true → dfltTypeMismatch v d = true → add n v d m = .error .valuetypesEq) ∧
+    (m.modifiable = true → dfltTypeMismatch v d = false → (v.count ≠ 1 ∨ dfltBadCount d = true) →
+      add n v d m = .error .arrayLen1) ∧
+    (m.modifiable = true → dfltTypeMismatch v d = false → v.count = 1 → dfltBadCount d = false →
+      m.exists_ n = true → add n v d m = .error .mdExists) := by
+  refine ⟨?_, ?_, ?_, ?_⟩
+  · intro h; simp [add, h]
+  · intro h ht; simp [add, h, ht]
+  · intro h ht hc
+    rcases hc with hc | hc <;> simp [add, h, ht, hc]
+  · intro h ht hc hb he
+    simp [add, h, ht, hc, hb, he]
+
+/-- what the two helper predicates say -/
+theorem dflt_checks (v : Obj) (d : Option Obj) :
+    (dfltTypeMismatch v d = false ↔ ∀ dd, d = some dd → dd.tid = v.tid) ∧
+    (dfltBadCount d = false ↔ ∀ dd, d = some dd → dd.count = 1) := by
+  cases d with
+  | none => simp [dfltTypeMismatch, dfltBadCount]
+  | some dd =>
+    simp only [dfltTypeMismatch, dfltBadCount, bne_eq_false_iff_eq, Option.some.injEq]
+    exact ⟨⟨fun h x hx => by rw [← hx]; exact h.symm, fun h => (h dd rfl).symm⟩,
+           ⟨fun h x hx => by rw [← hx]; exact h, fun h => h dd rfl⟩⟩
+
+/-- a successful add appends one entry at the end (insertion order), nothing else changes -/
+theorem add_ok (n : Bytes) (v : Obj) (d : Option Obj) (m m' : Md) (h : add n v d m = .ok m') :
+    m'.entries = m.entries ++ [⟨cstr n, some v, d⟩] ∧ m'.modifiable = m.modifiable ∧
+    m.modifiable = true ∧ m.exists_ n = false ∧ v.count = 1 ∧
+    (∀ dd, d = some dd → dd.tid = v.tid ∧ dd.count = 1) := by
+  unfold add at h
+  split at h; · simp at h
+  split at h; · simp at h
+  split at h; · simp at h
+  split at h; · simp at h
+  rename_i h1 h2 h3 h4
+  simp at h; subst h
+  simp only [Bool.or_eq_true, not_or, bne_iff_ne, ne_eq, Decidable.not_not, Bool.not_eq_true] at h3
+  refine ⟨rfl, rfl, by simpa using h1, by simpa using h4, h3.1, ?_⟩
+  intro dd hd
+  exact ⟨((dflt_checks v d).1.mp (by simpa using h2)) dd hd, ((dflt_checks v d).2.mp h3.2) dd hd⟩
+
+theorem add_inv (n : Bytes) (v : Obj) (d : Option Obj) (m m' : Md) (hi : Inv m) (h : add n v d m = .ok m') :
+    Inv m' := by
+  obtain ⟨he, _, _, hex, hc, hd⟩ := add_ok n v d m m' h
+  have hnone : ∀ e ∈ m.entries, nameEq e.name n = false := by
+    have : m.find n = none := by simpa [Md.exists_] using hex
+    exact (find_none_iff m n).mp this
+  refine ⟨?_, ?_⟩
+  · rw [he, List.pairwise_append]
+    refine ⟨hi.uniq, by simp, ?_⟩
+    intro a ha b hb
+    simp only [List.mem_singleton] at hb; subst hb
+    simp only
+    rw [C11.nameEq_symm, C11.nameEq_cstr, C11.nameEq_symm]; exact hnone a ha
+  · intro e hem
+    rw [he] at hem
+    simp only [List.mem_append, List.mem_singleton] at hem
+    rcases hem with h1 | h1
+    · exact hi.single e h1
+    · subst h1; exact ⟨v, rfl, hc, fun dd hdd => hd dd hdd⟩
+
+/-- `get` after `add` returns the value just added (an equal deep copy), and its default -/
+theorem get_after_add (n : Bytes) (v : Obj) (d : Option Obj) (m m' : Md) (h : add n v d m = .ok m') :
+    get n m' = .ok v ∧ getDflt n m' = .ok d ∧ m'.exists_ n = true ∧ m'.cnt = m.cnt + 1 := by
+  obtain ⟨he, _, _, hex, _, _⟩ := add_ok n v d m m' h
+  have hnone : m.entries.find? (fun e => nameEq e.name n) = none := by simpa [Md.exists_, Md.find] using hex
+  have hf : m'.find n = some ⟨cstr n, some v, d⟩ := by
+    simp [Md.find, he, List.find?_append, hnone, C11.nameEq_cstr, C11.nameEq_refl]
+  refine ⟨by simp [Md.get, hf], by simp [Md.getDflt, hf], by simp [Md.exists_, hf], by simp [Md.cnt, he]⟩
+
+/-- other names are not affected by an add -/
+theorem add_frame (n k : Bytes) (v : Obj) (d : Option Obj) (m m' : Md) (h : add n v d m = .ok m')
+    (hk : nameEq n k = false) : m'.find k = m.find k := by
+  obtain ⟨he, _⟩ := add_ok n v d m m' h
+  simp only [Md.find, he, List.find?_append]
+  have : ([⟨cstr n, some v, d⟩] : List MdEntry).find? (fun e => nameEq e.name k) = none := by
+    simp [C11.nameEq_cstr, hk]
+  rw [this]; simp
+
+/-! ### remove -/
+
+theorem eraseFirst_none (p : MdEntry → Bool) (l : List MdEntry) (h : ∀ e ∈ l, p e = false) : eraseFirst p l = l := by
+  induction l with
+  | nil => rfl
+  | cons x xs ih => simp [eraseFirst, h x (by simp), ih (fun e he => h e (by simp [he]))]
+
+theorem eraseFirst_sublist (p : MdEntry → Bool) (l : List MdEntry) : (eraseFirst p l).Sublist l := by
+  induction l with
+  | nil => exact List.Sublist.slnil
+  | cons x xs ih =>
+    simp only [eraseFirst]; split
+    · exact List.sublist_cons_self x xs
+    · exact ih.cons_cons x
+
+theorem eraseFirst_gone (n : Bytes) (l : List MdEntry)
+    (hu : l.Pairwise (fun a b => nameEq a.name b.name = false)) :
+    ∀ e ∈ eraseFirst (fun e => nameEq e.name n) l, nameEq e.name n = false := by
+  induction l with
+  | nil => simp [eraseFirst]
+  | cons x xs ih =>
+    rw [List.pairwise_cons] at hu
+    simp only [eraseFirst]
+    by_cases hx : nameEq x.name n = true
+    · simp only [hx, if_true]
+      intro e he
+      have := hu.1 e he
+      simp only [nameEq, beq_iff_eq] at hx
+      simp only [nameEq, beq_eq_false_iff_ne, ne_eq] at this ⊢
+      rw [← hx]; exact fun h' => this h'.symm
+    · have hx' : nameEq x.name n = false := by simpa using hx
+      rw [if_neg (by simp [hx'])]
+      intro e he
+      simp only [List.mem_cons] at he
+      rcases he with h1 | h1
+      · subst h1; simpa using hx
+      · exact ih hu.2 e h1
+
+/-- after a removal the name is gone (names are unique) -/
+theorem remove_gone (n : Bytes) (m m' : Md) (hi : Inv m) (h : remove n m = .ok m') : m'.exists_ n = false := by
+  unfold remove at h
+  split at h; · simp at h
+  simp at h; subst h
+  simp only [Md.exists_, Md.find, Option.isSome_eq_false_iff, Option.isNone_iff_eq_none, List.find?_eq_none]
+  intro e he
+  simpa using eraseFirst_gone n m.entries hi.uniq e he
+
+/-- removal is idempotent and never fails on a modifiable collection -/
+theorem remove_idem (n : Bytes) (m m' : Md) (hi : Inv m) (h : remove n m = .ok m') : remove n m' = .ok m' := by
+  have hg := remove_gone n m m' hi h
+  have hthis : ∀ e ∈ m'.entries, nameEq e.name n = false := by
+    have : m'.find n = none := by simpa [Md.exists_] using hg
+    exact (find_none_iff m' n).mp this
+  unfold remove at h
+  split at h; · simp at h
+  rename_i hm
+  simp at h
+  have hmod : m'.modifiable = m.modifiable := by rw [← h]
+  unfold remove
+  rw [eraseFirst_none _ _ hthis]
+  have hm' : m'.modifiable = true := by rw [hmod]; simpa using hm
+  cases m' with | mk e mo =>
+  simp only at hm'
+  simp [hm']
+
+theorem remove_inv (n : Bytes) (m m' : Md) (hi : Inv m) (h : remove n m = .ok m') : Inv m' := by
+  unfold remove at h
+  split at h; · simp at h
+  simp at h; subst h
+  have hs := eraseFirst_sublist (fun e => nameEq e.name n) m.entries
+  exact ⟨hi.uniq.sublist hs, fun e he => hi.single e (hs.subset he)⟩
+
+/-! ### copy -/
+
+/-- copy appends all source entries, or — on any name clash — none (an error, destination as before) -/
+theorem copy_all_or_none (src dst : Md) :
+    (∃ dst', copy src dst = .ok dst' ∧ dst'.entries = dst.entries ++ src.entries ∧ dst'.modifiable = dst.modifiable) ∨
+    (∃ e, copy src dst = .error e) := by
+  unfold copy
+  split; · exact .inr ⟨_, rfl⟩
+  split; · exact .inr ⟨_, rfl⟩
+  split; · exact .inr ⟨_, rfl⟩
+  exact .inl ⟨_, rfl, rfl, rfl⟩
+
+theorem copy_clash (src dst : Md) (hm : dst.modifiable = true) (s d : MdEntry) (hs : s ∈ src.entries)
+    (hd : d ∈ dst.entries) (hc : nameEq s.name d.name = true) : copy src dst = .error .mdExists := by
+  unfold copy
+  have : src.entries.any (fun s => dst.entries.any (fun d => nameEq s.name d.name)) = true := by
+    simp only [List.any_eq_true]; exact ⟨s, hs, d, hd, hc⟩
+  simp [this, hm]
+
+theorem copy_inv (src dst dst' : Md) (his : Inv src) (hid : Inv dst) (h : copy src dst = .ok dst') : Inv dst' := by
+  unfold copy at h
+  split at h; · simp at h
+  split at h; · simp at h
+  split at h; · simp at h
+  rename_i _ hclash _
+  simp at h; subst h
+  refine ⟨?_, ?_⟩
+  · simp only
+    rw [List.pairwise_append]
+    refine ⟨hid.uniq, his.uniq, ?_⟩
+    intro a ha b hb
+    simp only [List.any_eq_true, not_exists, not_and, Bool.not_eq_true] at hclash
+    rw [C11.nameEq_symm]; exact hclash b hb a ha
+  · intro e he
+    simp only [List.mem_append] at he
+    rcases he with h1 | h1
+    · exact hid.single e h1
+    · exact his.single e h1
+
+/-! ### freeze -/
+
+/-- after freezing every mutator fails with the read-only status (and yields no new state) -/
+theorem frozen_rejects (m : Md) (hf : m.modifiable = false) (n : Bytes) (v : Obj) (d : Option Obj) (src : Md) :
+    add n v d m = .error .mdReadonly ∧ remove n m = .error .mdReadonly ∧ copy src m = .error .mdReadonly ∧
+    addStr n n none m = .error .mdReadonly := by
+  simp [add, remove, copy, addStr, hf]
+
+theorem freeze_frozen (m : Md) : m.freeze.modifiable = false ∧ m.freeze.entries = m.entries := ⟨rfl, rfl⟩
+
+/-- the freeze is one-way: no operation makes a frozen collection modifiable again -/
+theorem stays_frozen (m m' : Md) (hf : m.modifiable = false) (n : Bytes) (v : Obj) (d : Option Obj) (src : Md) :
+    (add n v d m = .ok m' → False) ∧ (remove n m = .ok m' → False) ∧ (copy src m = .ok m' → False) ∧
+    m.freeze.modifiable = false := by
+  have := frozen_rejects m hf n v d src
+  refine ⟨?_, ?_, ?_, rfl⟩ <;> intro h <;> simp_all
+
+/-- metadata held by table metadata is frozen -/
+theorem tm_holds_frozen (md : Md) (t : TM) (h : tmCreate md = .ok t) : t.table.modifiable = false := by
+  unfold tmCreate at h
+  split at h
+  · simp at h
+  · simp at h; subst h; rfl
+
+theorem tmAdd_holds_frozen (md : Md) (t t' : TM) (h : tmAdd md t = .ok t')
+    (hall : ∀ c ∈ t.cols, c.modifiable = false) : ∀ c ∈ t'.cols, c.modifiable = false := by
+  unfold tmAdd at h
+  split at h
+  · simp at h
+  · simp at h; subst h
+    intro c hc
+    simp only [List.mem_append, List.mem_singleton] at hc
+    rcases hc with h1 | h1
+    · exact hall c h1
+    · subst h1; rfl
+
+/-- metadata returned by the reader is frozen -/
+theorem reader_returns_frozen (c : Cfg) (d : Array UInt8) (pos : Nat) (t : TM) (pos' : Nat)
+    (h : readTM c d pos = .ok (t, pos')) :
+    t.table.modifiable = false ∧ ∀ col ∈ t.cols, col.modifiable = false := by
+  simp only [readTM, P.bind_def, P.pure_def'] at h
+  obtain ⟨_, _, _, h⟩ := P.bind_eq_ok.mp h
+  obtain ⟨_, _, _, h⟩ := P.bind_eq_ok.mp h
+  split at h; · simp at h
+  obtain ⟨_, _, _, h⟩ := P.bind_eq_ok.mp h
+  obtain ⟨_, _, _, h⟩ := P.bind_eq_ok.mp h
+  obtain ⟨_, _, _, h⟩ := P.bind_eq_ok.mp h
+  obtain ⟨_, _, _, h⟩ := P.bind_eq_ok.mp h
+  obtain ⟨_, _, _, h⟩ := P.bind_eq_ok.mp h
+  obtain ⟨_, _, _, h⟩ := P.bind_eq_ok.mp h
+  obtain ⟨cols, _, _, h⟩ := P.bind_eq_ok.mp h
+  simp only [P.pure_eq_ok, Prod.mk.injEq] at h
+  rw [h.1]
+  refine ⟨rfl, ?_⟩
+  intro col hc
+  simp only [List.mem_map] at hc
+  obtain ⟨x, _, rfl⟩ := hc
+  rfl
+
+/-! ### all histories -/
+
+inductive Op where
+  | add (n : Bytes) (v : Obj) (d : Option Obj)
+  | remove (n : Bytes)
+  | copyFrom (src : Md)
+  | freeze
+
+/-- one operation on one collection: failed operations change nothing -/
+def step (m : Md) : Op → Md
+  | .add n v d => match add n v d m with | .ok m' => m' | .error _ => m
+  | .remove n => match remove n m with | .ok m' => m' | .error _ => m
+  | .copyFrom src => match copy src m with | .ok m' => m' | .error _ => m
+  | .freeze => m.freeze
+
+/-- Every sequence of operations keeps the invariant (unique names, singleton values whose
+    default has the same type), and a collection that was frozen stays frozen and unchanged. -/
+theorem history_inv (ops : List Op) (m : Md) (hi : Inv m) (hsrc : ∀ op ∈ ops, ∀ s, op = .copyFrom s → Inv s) :
+    Inv (ops.foldl step m) := by
+  induction ops generalizing m with
+  | nil => exact hi
+  | cons op rest ih =>
+    simp only [List.foldl_cons]
+    apply ih
+    · cases op with
+      | add n v d =>
+        simp only [step]; cases h : add n v d m with
+        | ok m' => exact add_inv n v d m m' hi h
+        | error e => exact hi
+      | remove n =>
+        simp only [step]; cases h : remove n m with
+        | ok m' => exact remove_inv n m m' hi h
+        | error e => exact hi
+      | copyFrom src =>
+        simp only [step]; cases h : copy src m with
+        | ok m' => exact copy_inv src m m' (hsrc _ (by simp) src rfl) hi h
+        | error e => exact hi
+      | freeze => exact ⟨hi.uniq, hi.single⟩
+    · intro op' h' s hs; exact hsrc op' (by simp [h']) s hs
+
+theorem history_frozen (ops : List Op) (m : Md) (hf : m.modifiable = false) : ops.foldl step m = m := by
+  induction ops with
+  | nil => rfl
+  | cons op rest ih =>
+    simp only [List.foldl_cons]
+    have : step m op = m := by
+      cases op with
+      | add n v d => simp [step, add, hf]
+      | remove n => simp [step, remove, hf]
+      | copyFrom src => simp [step, copy, hf]
+      | freeze => cases m; simp_all [step, Md.freeze]
+    rw [this]; exact ih
+
+/-- non-vacuity -/
+example : ∃ m, add [97] ⟨2, [[1, 0, 0, 0]]⟩ none Md.empty = .ok m ∧ get [97] m = .ok ⟨2, [[1, 0, 0, 0]]⟩ :=
+  ⟨_, rfl, rfl⟩
+
 end Sbdf.C10
